@@ -176,6 +176,23 @@ def k_hist(ctx, seqs, bins, normalize, pseudocount, metric=None, seqs2=None, con
             ctx.violation(f"pcDelta:{mode}:d0-count", "count in the bin isolating distance 0 is not sum n_i(n_i-1)/2", got0, want0)
 
 
+    # the same collection objects again with another metric object of the same class (other weights), then the first weights again
+    if metric == "obj:WeightedLevenshtein253":
+        from pyrepseq.metric import WeightedLevenshtein
+        for w in ((1, 1, 1), (2, 5, 3)):
+            fw = (lambda x, y, w=w: O.wlev(x, y, *w))
+            if seqs2 is None:
+                dw = [fw(seqs[i], seqs[j]) for i in range(len(seqs)) for j in range(i + 1, len(seqs))]
+            else:
+                dw = [fw(x, y) for x in seqs for y in seqs2]
+            expw = _expected_hist(dw, edges, normalize, pseudocount)
+            outw = ctx.call(prs.pcDelta, a, b, **dict(kw, metric=WeightedLevenshtein(*w)))
+            ctx.count("same_collection_other_metric_parameters")
+            if not outw.ok or not _same(outw.value, expw):
+                ctx.violation(f"pcDelta:{mode}:same-collection-other-weights", f"pcDelta of the same collection with WeightedLevenshtein{w} differs from the exact pair histogram",
+                              outw.describe(), expw)
+
+
 def k_bins0(ctx, seqs, seqs2=None, as_table=False):
     import pandas as pd
     import pyrepseq as prs
